@@ -36,6 +36,7 @@ pub fn kind_name(k: io::ErrorKind) -> &'static str {
 pub fn kind_of(name: &str) -> io::ErrorKind {
     match name {
         "other" => io::ErrorKind::Other,
+        "seek_interrupted" => io::ErrorKind::Interrupted,
         "permission_denied" => io::ErrorKind::PermissionDenied,
         "unexpected_eof" => io::ErrorKind::UnexpectedEof,
         "would_block" => io::ErrorKind::WouldBlock,
@@ -114,7 +115,7 @@ impl Read for ScriptSrc {
             return Err(io::Error::new(io::ErrorKind::Interrupted, "scripted interrupt"));
         }
         s.calls += 1;
-        if s.fault_at > 0 && s.calls == s.fault_at {
+        if s.fault_at > 0 && s.calls == s.fault_at && s.fault_kind != "seek_interrupted" {
             let k = s.fault_kind;
             s.log.push(IoEv::ReadErr(want, k));
             return Err(io::Error::new(kind_of(k), "scripted fault"));
